@@ -48,7 +48,12 @@ contract('nfc.tag.tt2:Type2Tag.read', 'C16', dict(self=T2(), page=Int(0, 65535))
 contract('nfc.tag.tt2:Type2Tag.write', 'C16', dict(self=T2(), page=Int(0, 65535), data=Bytes(0, 8, mutable=True)),
          name='C16/tt2.write', raises={T2E: [], 'ValueError': ['len(data) != 4']})
 contract('nfc.tag.tt2:Type2Tag.sector_select', 'C16', dict(self=T2(), sector=Int(0, 255)),
-         name='C16/tt2.sector_select', raises={T2E: []})
+         name='C16/tt2.sector_select',
+         # a new sector counts as selected only after the passive acknowledge (silence) to the second packet; a
+         # transmission or protocol error there persists (retries=0) and must surface as a TagCommandError
+         ensures=[('post.sector', 'result == sector and self._current_sector == sector'),
+                  ('post.passive-ack', 'implies(sector != old(self._current_sector), self._clf.outcomes[-1] == 1)')],
+         raises={T2E: ['self._current_sector == old(self._current_sector)']})
 contract('nfc.tag.tt2:Type2Tag._is_present', 'C16', dict(self=T2()), name='C16/tt2._is_present',
          ensures=[('post.bool', 'result == True or result == False')], raises={})
 T1E = 'nfc.tag.tt1:Type1TagCommandError'
@@ -63,9 +68,16 @@ for fn, args in (('read_id', {}), ('read_all', {}), ('read_byte', dict(addr=Int(
              raises={T1E: []})
 contract('nfc.tag.tt1:Type1Tag._is_present', 'C16', dict(self=T1()), name='C16/tt1._is_present',
          ensures=[('post.bool', 'result == True or result == False')], raises={})
-contract('nfc.tag.tt3:Type3Tag.polling', 'C16', dict(self=T3(), system_code=Int(0, 0xFFFF), request_code=Int(0, 2),
-                                                       time_slots=OneOf(0, 1, 3, 7, 15)),
-         name='C16/tt3.polling', raises={T3E: []})
+# polling(): callers unpack two values (idm, pmm) when request_code is 0 and three otherwise - whatever
+# well-framed SENSF_RES the tag sends (with or without request data), the tuple has that shape (C08: the NDEF
+# reader re-polls for system code 12FCh and must not fail on the answer)
+for _prop in ('C16', 'C08'):
+    contract('nfc.tag.tt3:Type3Tag.polling', _prop,
+             dict(self=T3(), system_code=Int(0, 0xFFFF), request_code=Int(0, 2), time_slots=OneOf(0, 1, 3, 7, 15)),
+             name='%s/tt3.polling' % _prop,
+             ensures=[('post.shape', 'len(result) == (2 if request_code == 0 else 3) and len(result[0]) == 8 '
+                                     'and len(result[1]) == 8')],
+             raises={T3E: []})
 contract('nfc.tag.tt3:Type3Tag._is_present', 'C16', dict(self=T3()), name='C16/tt3._is_present',
          ensures=[('post.bool', 'result == True or result == False')], raises={})
 contract('nfc.tag.tt3:Type3Tag.read_from_ndef_service', 'C16',
